@@ -398,7 +398,7 @@ def enforce(A: spmatrix,
             bout = enforce(b, D=D, diag=0., overwrite=overwrite)
         else:
             # set rhs to the given value
-            bout = b if overwrite else b.copy()
+            bout = b if overwrite else b.astype(np.result_type(b, x))
             bout[D] = x[D]
         return Aout, bout
 
@@ -457,9 +457,11 @@ def penalize(A: spmatrix,
     if b is None:
         return Aout
 
-    bout = b if overwrite else b.copy()
     # Nothing needs doing for mass matrix, but RHS vector needs penalty factor
-    if not isinstance(b, spmatrix):
+    if isinstance(b, spmatrix):
+        bout = b if overwrite else b.copy()
+    else:
+        bout = b if overwrite else b.astype(np.result_type(b, x, float))
         bout[D] = x[D] / epsilon
     return Aout, bout
 
